@@ -99,6 +99,8 @@ def build_repo(ctx, flavour="O1"):
         bad = [k for k, v in ctx.translator_status.items() if not (isinstance(v, dict) and v.get("ok"))]
         if rc != 0 or bad:
             ctx.say("translator problems:", ctx.translator_status)
+        st = ctx.translator_status
+        ctx.cov["translator"] = {k: ("ok" if isinstance(v, dict) and v.get("ok") else "FAILED: " + str((v or {}).get("error", v))[:300]) for k, v in st.items()} if isinstance(st, dict) else str(st)[:300]
     return libdir
 
 
@@ -592,7 +594,10 @@ def run_corr_runs(ctx, lib, all_runs):
             drv_ok = False
         h = build_harness(ctx, r["harness"], libdir, fl, extra=r.get("cxx_extra", ()))
         n, mism, fails, cases = run_cases(ctx, h, drv, r["args"], r["tag"], timeout=r.get("timeout", 900), env=r.get("env"))
-        ctx.say("%s: %d cases, %d disagreements, %d direct failures" % (r["tag"], n, len(mism), len(fails)))
+        if r.get("driver") and drv is None:
+            ctx.say("%s: %d cases, model driver unavailable - correspondence NOT evaluated, %d direct failures" % (r["tag"], n, len(fails)))
+        else:
+            ctx.say("%s: %d cases, %d disagreements, %d direct failures" % (r["tag"], n, len(mism), len(fails)))
         corr.append((r["tag"], n, mism, cases))
         pref = getattr(owner, "FAIL_PREFIXES", None)   # a harness shared by several properties tags its '!' lines; each check takes its own
         if pref is not None:
